@@ -167,7 +167,7 @@ func raceSig(rep string) string {
 		}
 		for _, line := range strings.Split(blk, "\n") {
 			m := frameRe.FindStringSubmatch(line)
-			if m != nil && !strings.HasPrefix(m[2], "verifsim") {
+			if m != nil && (!strings.HasPrefix(m[2], "verifsim") || strings.HasPrefix(m[2], "verifsim/cmdcollector")) {
 				fns = append(fns, m[2]+"."+trimArgs(m[3]))
 				break
 			}
